@@ -98,6 +98,11 @@ def seeded_pipeline(seed, kind, n):
         return base.shuffle(reshuffle=True, buffer_size=3, rng=rs)
     if kind == 'reshuffle_map_batch':
         return base.shuffle(reshuffle=True, rng=rs).map(lambda x: x + 1).batch(2)
+    if kind == 'reshuffle_tile':
+        return base.shuffle(reshuffle=True, rng=rs).tile(2)
+    if kind == 'reshuffle_self_concat':
+        x = base.shuffle(reshuffle=True, rng=rs).map(lambda v: v)
+        return lazy_dataset.concatenate(x, x, x)
     if kind == 'two':
         return base.shuffle(reshuffle=True, rng=rs).shuffle(reshuffle=True, buffer_size=2, rng=np.random.RandomState(seed + 1))
     return base.shuffle(rng=rs)
@@ -106,6 +111,7 @@ def seeded_pipeline(seed, kind, n):
 def run(rep):
     rng = random.Random(rep.seed * 41 + 13)
     fails = []
+    known_f20 = []
     with warnings.catch_warnings():
         warnings.simplefilter('ignore')
         # (1) copies are faithful, and the model's table of forwarded parameters matches the real classes
@@ -137,13 +143,14 @@ def run(rep):
         nseed = 40 if rep.tier == 'quick' else 800
         for _ in range(nseed):
             seed = rng.randrange(1 << 30)
-            kind = rng.choice(['reshuffle', 'local', 'reshuffle_map_batch', 'two', 'once'])
+            kind = rng.choice(['reshuffle', 'local', 'reshuffle_map_batch', 'two', 'once', 'reshuffle_tile', 'reshuffle_self_concat'])
             n = rng.randint(1, 9)
             a = seeded_pipeline(seed, kind, n)
             b = seeded_pipeline(seed, kind, n)
             c = seeded_pipeline(seed, kind, n).copy()
             d = seeded_pipeline(seed, kind, n).prefetch(1, 2)
             e = seeded_pipeline(seed, kind, n).prefetch(2, 2) if kind != 'local' and kind != 'two' else None
+            fz_src = seeded_pipeline(seed, kind, n) if kind not in ('local', 'two') else None
             for epoch in range(3):
                 outs = []
                 for ds in (a, b, c, d, e):
@@ -151,7 +158,18 @@ def run(rep):
                         continue
                     np.random.seed(rng.randrange(1 << 30))       # adversarial global state
                     outs.append([repr(x) for x in ds])
-                if any(o != outs[0] for o in outs[1:]):
+                if fz_src is not None:
+                    # a frozen copy taken at the start of the epoch shows that epoch's order (and keeps it)
+                    fzc = fz_src.copy(freeze=True)
+                    o1 = [repr(x) for x in fzc]
+                    if o1 != [repr(x) for x in fzc]:
+                        fails.append(('frozen_copy_not_fixed', {'kind': kind, 'seed': seed}))
+                    outs.append(o1)
+                bad = [i for i, o in enumerate(outs) if o != outs[0]]
+                if bad == [2] and kind in ('reshuffle_tile', 'reshuffle_self_concat'):
+                    # known finding F20: copy() gives every occurrence of a repeated object its own copy
+                    known_f20.append({'kind': kind, 'seed': seed, 'n': n, 'epoch': epoch})
+                elif bad:
                     fails.append(('seed_not_reproducible', {'kind': kind, 'seed': seed, 'n': n, 'epoch': epoch, 'orders': outs}))
                     break
             # one-time shuffle and frozen copy: one fixed order forever; reshuffling datasets report unordered
@@ -164,6 +182,13 @@ def run(rep):
                 fails.append(('frozen_copy_not_fixed', {'seed': seed}))
             if rs.ordered or seeded_pipeline(seed, 'local', n).ordered or rs.map(lambda x: x).batch(2).ordered or not once.ordered:
                 fails.append(('ordered_flag', {'seed': seed}))
+    if known_f20:
+        import common
+        fnd = [f for f in common.load_known() if f.get('status') == 'known' and f['id'] == 'F20']
+        if fnd:
+            rep.known('F20', fnd[0]['what'])
+        else:
+            fails.append(('copy_of_repeated_reshuffle_differs', known_f20[0]))
     seen = set()
     for cl, det in fails:
         key = (cl, det.get('class'), det.get('attribute'))
